@@ -36,6 +36,22 @@ class Boom(Exception):
     pass
 
 
+class Boom2(Exception):
+    """An application exception that cannot be constructed from one string."""
+
+    def __init__(self, code, where):
+        super().__init__(code, where)
+        self.code, self.where = code, where
+
+
+def iter_exception(seed):
+    """What the failing iterable raises: a plain exception, or one whose class needs several constructor arguments (re-wrapping
+    it as type(e)(message) fails), or a BaseException-derived control-flow exception is NOT used (KeyboardInterrupt kills runs)."""
+    import json
+    return [Boom('iterable failed'), Boom2(3, 'sensor'), json.JSONDecodeError('bad value', '{"a": ]', 6),
+            UnicodeDecodeError('utf-8', b'\xff\xfe', 0, 1, 'invalid start byte'), KeyError('missing'), StopAsyncIteration()][seed % 6]
+
+
 def _badclose(seq, out):
     """A generator whose own clean-up fails when it is closed before it is exhausted (it is still suspended at a yield when the
     append it feeds fails on a bad item): a second failure while cleaning up after the first."""
@@ -194,12 +210,12 @@ def _exec_iter(ctx, spec):
                 for g in done:
                     ra.append(g)
                 if kind == 'raise':
-                    ra.iterappend(faults.FailingIter([], Boom('iterable failed')))
+                    ra.iterappend(faults.FailingIter([], iter_exception(spec.get('exc', spec['seed']))))
                 else:
                     ra.append(bad)
             else:
                 if kind == 'raise':
-                    it = faults.FailingIter(list(done), Boom('iterable failed'))
+                    it = faults.FailingIter(list(done), iter_exception(spec.get('exc', spec['seed'])))
                     it = iter(it) if via in ('iterappend-gen', 'iterappend-gen-badclose') else it
                 else:
                     seq = list(done) + [bad] + good[p:]
@@ -335,6 +351,10 @@ def iter_grid():
                                 continue
                             yield {'f': 'iter', 'dt': {'t': t, 'bo': bo}, 'atom': atom, 'seed': 4, 'start': start, 'n': n, 'p': p, 'kind': kind,
                                    'lens': [2, 0, 1][:n], 'via': via, 'indextype': itype}
+                            if kind == 'raise' and via != 'iterappend-gen-badclose':
+                                for exc in range(6):       # every class of exception the data source may raise
+                                    yield {'f': 'iter', 'dt': {'t': t, 'bo': bo}, 'atom': atom, 'seed': 4, 'start': start, 'n': n, 'p': p, 'kind': kind,
+                                           'lens': [2, 0, 1][:n], 'via': via, 'indextype': itype, 'exc': exc}
                             if n <= 1 and kind != 'overflow':
                                 yield {'f': 'iter', 'dt': {'t': t, 'bo': bo}, 'atom': atom, 'seed': 4, 'start': start, 'n': n, 'p': p, 'kind': kind,
                                        'lens': [2, 0, 1][:n], 'via': via, 'indextype': itype, 'ctx': ['open_arrays', 'iter_arrays'][(n + p) % 2]}
